@@ -31,7 +31,19 @@ EXPLANATION = (
     "an inhabitant of X (nominal ancestor, or structural protocol whose "
     "attributes - computed as Class._init_protocol_attributes does, extra "
     "sets read from its source - T's stub MRO defines) iff CPython says so; "
-    "R2.6 a sub-protocol's attribute set includes its super-protocol's. "
+    "R2.6 a sub-protocol's attribute set includes its super-protocol's; "
+    "R2.7 Signature.iter_args (the (name, argument, expected type) stream the "
+    "argument matcher consumes) gives a keyword argument the annotation of "
+    "the parameter it binds to: the keyword loop is executed symbolically "
+    "once per kind of keyword name (positional-only, positional-or-keyword, "
+    "keyword-only, extra), membership tests against param_names / its "
+    "posonly_count slices / posonly_params / kwonly_params / annotations are "
+    "evaluated for that kind, and for positional-or-keyword and keyword-only "
+    "names every path must perform self.annotations.get(name) and may replace "
+    "its result (by the **kwargs element type) only when it was None; for a "
+    "positional-only name the lookup must not happen (such a keyword belongs "
+    "to **kwargs); conditions or statements outside that vocabulary are "
+    "analysis errors. "
     "These are necessary conditions of exact enforcement for ground values; "
     "what the matcher computes for generics, unions, callables and user "
     "classes is not decided.")
@@ -42,6 +54,12 @@ ASSUMPTIONS = [
     "/ _init_protocol_attributes / matcher._get_attribute_names; it was "
     "calibrated against the real matcher at design time",
     "options default: none_is_not_bool off (recorded as known finding D19)",
+    "R2.7: Signature.param_names lists the positional parameters with the "
+    "first posonly_count of them positional-only, kwonly_params the "
+    "keyword-only ones; a name missing from Signature.annotations looks up "
+    "as None, so a guard `name in self.annotations` loses nothing; stub "
+    "(PyTD) signatures take their expected types from "
+    "PyTDSignature._map_args, which R2.7 does not cover",
 ]
 
 NUMERIC = {"bool", "int", "float", "complex"}
@@ -415,6 +433,292 @@ def r2_4(ctx):
             "unless the call is a binary operator", {"calls": calls})
 
 
+# -- R2.7: the expected type of a keyword argument ------------------------------------
+
+FUNCTION = "pytype/abstract/function.py"
+# kinds of names a keyword argument can carry, relative to the signature
+_KINDS = ("posonly", "poskw", "kwonly", "extra")
+
+
+class _KwFormal:
+  """Symbolic execution of the keyword loop of Signature.iter_args, once per
+  kind of keyword name: which value reaches the `formal` slot of the yield.
+
+  Values of the slot: L = result of the annotation lookup for this name,
+  LN = that result, known to be None, N = None without a lookup, F = a fallback
+  assigned while the slot was None after a lookup, F0 = a fallback assigned
+  while the slot was None without a lookup, X = anything else."""
+
+  def __init__(self, mod, fn, loop, name_var, args_name):
+    self.mod, self.fn, self.loop = mod, fn, loop
+    self.name_var, self.args_name = name_var, args_name
+    self.outcomes = []      # (kind, slot value, lookup executed)
+    self.budget = 4000
+
+  # -- name sets ---------------------------------------------------------------
+  def local_value(self, name):
+    vals = [n.value for n in ast.walk(self.fn) if isinstance(n, ast.Assign)
+            and len(n.targets) == 1 and isinstance(n.targets[0], ast.Name)
+            and n.targets[0].id == name]
+    return vals[0] if len(vals) == 1 else None
+
+  def kinds_in(self, expr, depth=0):
+    """The kinds of names a collection holds; None if not understood."""
+    if depth > 5:
+      return None
+    if isinstance(expr, ast.Name):
+      v = self.local_value(expr.id)
+      return None if v is None else self.kinds_in(v, depth + 1)
+    if isinstance(expr, ast.Call) and isinstance(expr.func, ast.Name) and \
+        expr.func.id in ("set", "frozenset", "tuple", "list", "sorted") and \
+        len(expr.args) == 1 and not expr.keywords:
+      return self.kinds_in(expr.args[0], depth + 1)
+    if isinstance(expr, ast.BinOp) and isinstance(expr.op, (ast.Add, ast.BitOr)):
+      l, r = self.kinds_in(expr.left, depth + 1), self.kinds_in(expr.right, depth + 1)
+      return None if l is None or r is None else l | r
+    d = dotted(expr)
+    if d == "self.param_names":
+      return {"posonly", "poskw"}
+    if d == "self.posonly_params":
+      return {"posonly"}
+    if d == "self.kwonly_params":
+      return {"kwonly"}
+    if d == "self.annotations":
+      # unannotated names are absent, but then the lookup yields None anyway
+      return {"posonly", "poskw", "kwonly"}
+    if isinstance(expr, ast.Subscript) and dotted(expr.value) == "self.param_names" \
+        and isinstance(expr.slice, ast.Slice) and expr.slice.step is None:
+      lo, up = expr.slice.lower, expr.slice.upper
+      if lo is None and up is not None and dotted(up) == "self.posonly_count":
+        return {"posonly"}
+      if up is None and lo is not None and dotted(lo) == "self.posonly_count":
+        return {"poskw"}
+    return None
+
+  # -- expressions -------------------------------------------------------------
+  def is_lookup(self, e):
+    """self.annotations.get(<name>) / self.annotations[<name>]"""
+    if isinstance(e, ast.Call) and isinstance(e.func, ast.Attribute) and \
+        e.func.attr == "get" and dotted(e.func.value) == "self.annotations" and \
+        1 <= len(e.args) <= 2 and isinstance(e.args[0], ast.Name) and \
+        e.args[0].id == self.name_var:
+      return len(e.args) == 1 or (isinstance(e.args[1], ast.Constant)
+                                  and e.args[1].value is None)
+    return (isinstance(e, ast.Subscript) and dotted(e.value) == "self.annotations"
+            and isinstance(e.slice, ast.Name) and e.slice.id == self.name_var)
+
+  def truth(self, test, kind, env):
+    """-> list of (bool, env) outcomes of evaluating `test`."""
+    if isinstance(test, ast.UnaryOp) and isinstance(test.op, ast.Not):
+      return [(not b, e) for b, e in self.truth(test.operand, kind, env)]
+    if isinstance(test, ast.BoolOp):
+      is_and = isinstance(test.op, ast.And)
+      states = [(None, env)]
+      for v in test.values:
+        nxt = []
+        for b, e in states:
+          if b is not None and b != is_and:      # short-circuited
+            nxt.append((b, e))
+          else:
+            nxt.extend(self.truth(v, kind, e))
+        states = nxt
+      return states
+    if isinstance(test, ast.Compare) and len(test.ops) == 1:
+      op, l, r = test.ops[0], test.left, test.comparators[0]
+      if isinstance(op, (ast.In, ast.NotIn)) and isinstance(l, ast.Name) and \
+          l.id == self.name_var:
+        ks = self.kinds_in(r)
+        if ks is None:
+          raise AnalysisError(
+              f"iter_args: the name set `{src(r)}` could not be classified")
+        b = kind in ks
+        return [(b if isinstance(op, ast.In) else not b, env)]
+      if isinstance(op, (ast.Is, ast.IsNot)) and isinstance(r, ast.Constant) \
+          and r.value is None and isinstance(l, ast.Name) and l.id in env["slots"]:
+        return [(b if isinstance(op, ast.Is) else not b, e)
+                for b, e in self.none_test(l.id, env)]
+    if isinstance(test, ast.Name) and test.id in env["slots"]:
+      return [(not b, e) for b, e in self.none_test(test.id, env)]
+    if flow.names_in(test) & ({self.name_var} | set(env["slots"])):
+      # a test on the keyword name / the slot that is not understood
+      raise AnalysisError(f"iter_args: condition `{src(test)}` not understood")
+    return [(True, env), (False, env)]
+
+  def none_test(self, var, env):
+    """Is slot `var` None?  Refines L into LN / L(non-None)."""
+    v = env["slots"][var]
+    if v in ("N", "LN"):
+      return [(True, env)]
+    if v == "L":
+      e2 = dict(env, slots=dict(env["slots"], **{var: "LN"}))
+      e3 = dict(env, slots=dict(env["slots"], **{var: "L!"}))
+      return [(True, e2), (False, e3)]
+    if v == "L!":
+      return [(False, env)]
+    return [(True, env), (False, env)]
+
+  def assign(self, var, value, kind, env):
+    outs = []
+    if isinstance(value, ast.IfExp):
+      for b, e in self.truth(value.test, kind, env):
+        outs.extend(self.assign(var, value.body if b else value.orelse, kind, e))
+      return outs
+    prev = env["slots"].get(var)
+    looked = env["looked"]
+    if self.is_lookup(value):
+      new, looked = "L", True
+    elif isinstance(value, ast.Constant) and value.value is None:
+      new = "LN" if prev == "LN" else "N"
+    elif isinstance(value, ast.Name) and value.id in env["slots"]:
+      new = env["slots"][value.id]
+    elif prev == "LN":
+      new = "F"
+    elif prev == "N":
+      new = "F0"
+    else:
+      new = "X"
+    return [dict(env, slots=dict(env["slots"], **{var: new}), looked=looked)]
+
+  # -- statements --------------------------------------------------------------
+  def run_block(self, stmts, kind, env):
+    """-> list of envs that fall through the block."""
+    envs = [env]
+    for st in stmts:
+      nxt = []
+      for e in envs:
+        nxt.extend(self.run_stmt(st, kind, e))
+      envs = nxt
+      self.budget -= len(envs) + 1
+      if self.budget < 0:
+        raise AnalysisError("iter_args: too many paths in the keyword loop")
+    return envs
+
+  def run_stmt(self, st, kind, env):
+    if isinstance(st, ast.If):
+      out = []
+      for b, e in self.truth(st.test, kind, env):
+        out.extend(self.run_block(st.body if b else st.orelse, kind, e))
+      return out
+    if isinstance(st, (ast.Assign, ast.AnnAssign)):
+      tgts = st.targets if isinstance(st, ast.Assign) else [st.target]
+      if st.value is None:
+        return [env]
+      if len(tgts) == 1 and isinstance(tgts[0], ast.Name):
+        self.scan_yields(st.value, kind, env)
+        if tgts[0].id == self.name_var:
+          raise AnalysisError("iter_args: the keyword name is rebound")
+        return self.assign(tgts[0].id, st.value, kind, env)
+      raise AnalysisError(f"iter_args: `{src(st)[:60]}` not understood")
+    if isinstance(st, ast.Expr):
+      self.scan_yields(st.value, kind, env)
+      return [env]
+    if isinstance(st, ast.Continue):
+      return []
+    if isinstance(st, ast.Pass):
+      return [env]
+    raise AnalysisError(
+        f"iter_args: statement `{src(st)[:60]}` in the keyword loop not understood")
+
+  def scan_yields(self, expr, kind, env):
+    for y in ast.walk(expr):
+      if isinstance(y, ast.YieldFrom):
+        raise AnalysisError("iter_args: yield from in the keyword loop")
+      if isinstance(y, ast.Yield):
+        v = y.value
+        if not (isinstance(v, ast.Tuple) and len(v.elts) == 3
+                and isinstance(v.elts[0], ast.Name)
+                and v.elts[0].id == self.name_var):
+          raise AnalysisError(
+              f"iter_args: `{src(y)[:60]}` is not (name, argument, formal)")
+        f = v.elts[2]
+        if isinstance(f, ast.Name):
+          if f.id not in env["slots"]:
+            raise AnalysisError(f"iter_args: `{f.id}` yielded before assignment")
+          val, looked = env["slots"][f.id], env["looked"]
+        else:
+          e2 = self.assign("<yield>", f, kind, env)
+          if len(e2) != 1:
+            raise AnalysisError("iter_args: conditional expression in the yield")
+          val, looked = e2[0]["slots"]["<yield>"], e2[0]["looked"]
+        self.outcomes.append((kind, val, looked, y.lineno))
+
+  def run(self):
+    for kind in _KINDS:
+      self.run_block(self.loop.body, kind, {"slots": {}, "looked": False})
+    return self.outcomes
+
+
+@rule("R2.7", "C02", floor=2)
+def r2_7(ctx):
+  """A keyword argument is checked against the annotation of the parameter it
+  binds to: always looked up, except for positional-only names."""
+  mod = get_module(ctx, FUNCTION)
+  fn = mod.func("Signature.iter_args")
+  params = [a.arg for a in fn.args.args]
+  if len(params) != 2:
+    raise AnalysisError("Signature.iter_args(self, args) signature not understood")
+  args_name = params[1]
+  loops = [n for n in fn.body if isinstance(n, ast.For) and any(
+      dotted(x) == f"{args_name}.namedargs" for x in ast.walk(n.iter))]
+  if len(loops) != 1:
+    raise AnalysisError("iter_args: the loop over args.namedargs was not found")
+  loop = loops[0]
+  it = loop.iter
+  while isinstance(it, ast.Call) and isinstance(it.func, ast.Name) and \
+      it.func.id in ("sorted", "list", "tuple") and len(it.args) == 1:
+    it = it.args[0]
+  items = False
+  if isinstance(it, ast.Call) and isinstance(it.func, ast.Attribute) and \
+      it.func.attr in ("keys", "items") and not it.args:
+    items = it.func.attr == "items"
+    it = it.func.value
+  if dotted(it) != f"{args_name}.namedargs" or loop.orelse:
+    raise AnalysisError(
+        f"iter_args: keyword loop iterates `{src(loop.iter)}`, not every "
+        "passed keyword")
+  tgt = loop.target
+  if items and isinstance(tgt, ast.Tuple) and len(tgt.elts) == 2 and \
+      isinstance(tgt.elts[0], ast.Name):
+    name_var = tgt.elts[0].id
+  elif not items and isinstance(tgt, ast.Name):
+    name_var = tgt.id
+  else:
+    raise AnalysisError("iter_args: keyword loop target not understood")
+  outcomes = _KwFormal(mod, fn, loop, name_var, args_name).run()
+  by_kind = {k: sorted({(v, looked) for kk, v, looked, _ in outcomes if kk == k})
+             for k in _KINDS}
+  for k in _KINDS:
+    if not by_kind[k]:
+      raise AnalysisError(
+          f"iter_args: no (name, argument, formal) is yielded for a keyword "
+          f"naming a {k} parameter")
+  facts = {"formal_by_kind_of_name": {k: [v for v, _ in by_kind[k]] for k in _KINDS}}
+  line = loop.lineno
+  # keyword-bindable parameters: the annotation is looked up and nothing but a
+  # None result lets something else take its place
+  problems = []
+  for k in ("poskw", "kwonly"):
+    bad = [v for v, looked in by_kind[k] if v not in ("L", "L!", "LN", "F")]
+    if bad:
+      what = {"poskw": "positional-or-keyword", "kwonly": "keyword-only"}[k]
+      how = "never looked up" if set(bad) <= {"N", "F0"} else \
+          "replaced although it was found" if "X" in bad else str(bad)
+      problems.append(f"for a keyword naming a {what} parameter the "
+                      f"annotation is {how} (formal is {bad})")
+  ctx.check(not problems, "Signature.iter_args:keyword-formal-is-annotation",
+            FUNCTION, line,
+            "; ".join(problems) + ": the argument is then matched against "
+            "nothing (or against the **kwargs element type) and a value outside "
+            "the parameter's annotation is accepted", facts)
+  # positional-only names cannot be bound by keyword: such a keyword belongs to
+  # **kwargs and must not be matched against the positional parameter's type
+  bad = [v for v, looked in by_kind["posonly"] if looked]
+  ctx.check(not bad, "Signature.iter_args:posonly-name-not-matched", FUNCTION, line,
+            "a keyword named like a positional-only parameter is matched "
+            "against that parameter's annotation (def f(x: int, /, **kw: str); "
+            "f(1, x='a') is valid and binds kw['x'])", facts)
+
+
 VARIANTS = [
     {"name": "tower-reversed-pair", "rule": "R2.1", "file": "pytype/pytd/pep484.py", "expect": "fire",
      "old": '    ("int", "float"),\n', "new": '    ("int", "float"),\n    ("float", "int"),\n'},
@@ -463,4 +767,33 @@ VARIANTS = [
      "new": 'if self.pytd_cls.name == "typing.Mapping":'},
     {"name": "twin-compat-order", "rule": "R2.1", "file": "pytype/pytd/pep484.py", "expect": "silent",
      "old": '    ("int", "float"),\n    ("int", "complex"),\n', "new": '    ("int", "complex"),\n    ("int", "float"),\n'},
+    # R2.7
+    {"name": "seeded-C02-m2", "rule": "R2.7", "patch": "seeded/C02-m2/patch.diff", "expect": "fire"},
+    {"name": "kwonly-names-skip-annotation-lookup", "rule": "R2.7", "file": FUNCTION, "expect": "fire",
+     "old": "      if name in self.param_names[: self.posonly_count]:\n        formal = None",
+     "new": "      if name in self.posonly_params or name in self.kwonly_params:\n        formal = None"},
+    {"name": "kwargs-type-overrides-annotation", "rule": "R2.7", "file": FUNCTION, "expect": "fire",
+     "old": "      if formal is None and self.kwargs_name:",
+     "new": "      if self.kwargs_name:"},
+    {"name": "lookup-only-for-positional-names", "rule": "R2.7", "file": FUNCTION, "expect": "fire",
+     "old": "      if name in self.param_names[: self.posonly_count]:\n        formal = None\n      else:\n        formal = self.annotations.get(name)",
+     "new": "      formal = self.annotations.get(name) if name in self.param_names else None"},
+    {"name": "posonly-name-matched-by-keyword", "rule": "R2.7", "file": FUNCTION, "expect": "fire",
+     "old": "      if name in self.param_names[: self.posonly_count]:\n        formal = None\n      else:\n        formal = self.annotations.get(name)",
+     "new": "      formal = self.annotations.get(name)"},
+    {"name": "keyword-loop-over-unknown-subset", "rule": "R2.7", "file": FUNCTION, "expect": "error",
+     "old": "    for name in sorted(args.namedargs):\n      namedarg = args.namedargs[name]",
+     "new": "    for name in sorted(self._checked_keywords(args)):\n      namedarg = args.namedargs[name]"},
+    {"name": "twin-posonly-via-property-and-ifexp", "rule": "R2.7", "file": FUNCTION, "expect": "silent",
+     "old": "      if name in self.param_names[: self.posonly_count]:\n        formal = None\n      else:\n        formal = self.annotations.get(name)",
+     "new": "      formal = None if name in self.posonly_params else self.annotations.get(name)"},
+    {"name": "twin-lookup-under-negated-guard", "rule": "R2.7", "file": FUNCTION, "expect": "silent",
+     "old": "      if name in self.param_names[: self.posonly_count]:\n        formal = None\n      else:\n        formal = self.annotations.get(name)",
+     "new": "      formal = None\n      posonly = set(self.param_names[: self.posonly_count])\n      if name not in posonly:\n        formal = self.annotations.get(name)"},
+    {"name": "twin-positive-guard-over-all-keyword-bindable", "rule": "R2.7", "file": FUNCTION, "expect": "silent",
+     "old": "      if name in self.param_names[: self.posonly_count]:\n        formal = None\n      else:\n        formal = self.annotations.get(name)",
+     "new": "      if name in self.param_names[self.posonly_count :] + self.kwonly_params:\n        formal = self.annotations.get(name)\n      else:\n        formal = None"},
+    {"name": "twin-items-loop", "rule": "R2.7", "file": FUNCTION, "expect": "silent",
+     "old": "    for name in sorted(args.namedargs):\n      namedarg = args.namedargs[name]",
+     "new": "    for name, namedarg in sorted(args.namedargs.items()):"},
 ]
